@@ -99,9 +99,10 @@ FORMS = ['loose', 'packed', 'packed_z', 'packed_z_loosened', 'lazy_loose']
 
 def streamprog(prop, seed, index, tier):
     rng = random.Random(f'sp/{seed}/{index}')
-    pool = content_pool(rng, big=(index % 10 == 0))
-    form = FORMS[index % len(FORMS)]
-    b = rng.choice(pool) if index % 10 else pool[-3 + rng.randrange(3)]
+    drain = index % 20 == 2          # many tiny reads, then one large read, on an object deflating to > 512 KiB
+    pool = content_pool(rng, big=(index % 10 == 0 or drain))
+    form = 'packed_z' if drain else FORMS[index % len(FORMS)]
+    b = pool[-3] if drain else rng.choice(pool) if index % 10 else pool[-3 + rng.randrange(3)]
     root = scratch_root()
     prog = []
     try:
@@ -121,10 +122,11 @@ def streamprog(prop, seed, index, tier):
         ctx = c.get_lazy_loose_stream(key) if form == 'lazy_loose' else c.get_object_stream(key)
         with ctx as s:
             nsteps = rng.randrange(4, 30)
-            for _ in range(nsteps):
+            forced = ([1] * rng.choice([702, 702, 300, 1500]) + [2_000_000]) if drain else []
+            for _ in range(nsteps + len(forced)):
                 r = rng.random()
-                if r < .45:
-                    n = rng.choice([0, 1, 2, 7, 100, 4096, 65536, 600_000, -1, None, rng.randrange(0, L + 2)])
+                if forced or r < .45:
+                    n = forced.pop(0) if forced else rng.choice([0, 1, 2, 7, 100, 4096, 65536, 600_000, -1, None, rng.randrange(0, L + 2)])
                     prog.append(['read', n])
                     got = s.read() if n is None else s.read(n)
                     exp = ref.read() if n is None else ref.read(n)
@@ -167,7 +169,8 @@ def streamprog(prop, seed, index, tier):
         c.close()
     finally:
         shutil.rmtree(root, ignore_errors=True)
-    return {'sig': [form, len(b), prog], 'nontrivial': len(prog) >= 4 and len(b) > 0, 'form': form, 'len': len(b), 'prog': prog[:12]}
+    return {'sig': [form, len(b), str(prog)[-400:], len(prog)], 'nontrivial': len(prog) >= 4 and len(b) > 0, 'form': form, 'len': len(b),
+            'prog_len': len(prog), 'prog': prog[-12:]}
 
 
 # ----------------------------------------------------------------------------------------------- C16 helpers
